@@ -65,7 +65,12 @@ for _t in (str, bytes, bytearray):
         METHODS.add((_t, _m))
 
 
-class Obj:
+class Native:
+    """base of the model objects a rule hands to the evaluated code: their attributes (properties included) can be
+    read, their methods called and their items subscripted by that code"""
+
+
+class Obj(Native):
     """a record with attributes the evaluated code may read (and methods given as python callables)"""
 
     def __init__(self, **kw):
@@ -141,6 +146,8 @@ class Evaluator:
                 hi = self.ev(n.slice.upper) if n.slice.upper is not None else None
                 st = self.ev(n.slice.step) if n.slice.step is not None else None
                 return base[lo:hi:st]
+            if isinstance(base, Native):
+                return base[self.ev(n.slice)]       # errors of model objects are part of the evaluated behaviour
             try:
                 return base[self.ev(n.slice)]
             except Exception as e:      # pylint: disable=broad-except
@@ -154,7 +161,7 @@ class Evaluator:
                 base = self.ev(n.value)
             except Unsupported:
                 base = None
-            if isinstance(base, Obj) and hasattr(base, n.attr):
+            if isinstance(base, Native) and hasattr(base, n.attr):
                 return getattr(base, n.attr)
         if isinstance(n, ast.Attribute) and self.name_hook is not None:
             return self.name_hook(ast.unparse(n))
@@ -191,7 +198,7 @@ class Evaluator:
             for t, m in METHODS:
                 if isinstance(base, t) and not isinstance(base, bool) and m == n.func.attr:
                     return getattr(base, m)(*args, **kwargs)
-            if isinstance(base, Obj) and callable(getattr(base, n.func.attr, None)):
+            if isinstance(base, Native) and callable(getattr(base, n.func.attr, None)):
                 return getattr(base, n.func.attr)(*args, **kwargs)
         raise Unsupported('call %s' % ast.unparse(n)[:60])
 
@@ -251,6 +258,8 @@ class Evaluator:
                         continue
                 if not broke:
                     self.run(st.orelse)
+            elif isinstance(st, ast.Try):
+                self.run_try(st)
             elif isinstance(st, ast.Break):
                 raise _Break()
             elif isinstance(st, ast.Continue):
@@ -268,12 +277,43 @@ class Evaluator:
             else:
                 raise Unsupported('statement %s' % type(st).__name__)
 
+    NATIVE_ERRORS = (KeyError, IndexError, ValueError, AttributeError, TypeError, ZeroDivisionError)
+
+    def run_try(self, st):
+        """try / except / else / finally: handlers are matched by exception class *name* (a ``raise X(...)`` executed by
+        the evaluated code, or a python exception raised by a model object) - no class hierarchy except Exception"""
+        def handler_names(h):
+            if h.type is None:
+                return None
+            ts = h.type.elts if isinstance(h.type, ast.Tuple) else [h.type]
+            return {ast.unparse(t).split('.')[-1] for t in ts}
+        try:
+            try:
+                self.run(st.body)
+            except (Raised,) + self.NATIVE_ERRORS as e:
+                name = e.what.split('(')[0].split('.')[-1] if isinstance(e, Raised) else type(e).__name__
+                for h in st.handlers:
+                    names = handler_names(h)
+                    if names is None or name in names or 'Exception' in names or 'BaseException' in names:
+                        if h.name:
+                            self.env[h.name] = Obj(args=tuple(getattr(e, 'args', ())), what=str(e))
+                        self.run(h.body)
+                        break
+                else:
+                    raise
+            else:
+                self.run(st.orelse)
+        finally:
+            self.run(st.finalbody)
+
     def function(self, node):
         """value returned by the body of a FunctionDef (None when it falls off the end)"""
         try:
             self.run(node.body)
         except _Return as r:
             return r.value
+        except self.NATIVE_ERRORS as e:
+            raise Raised('%s(%s)' % (type(e).__name__, e))
         return None
 
 
